@@ -252,10 +252,10 @@ pub fn record<T: Serialize>(v: &T) -> (Vec<u8>, Marks) {
 }
 
 /// Largest tag value tried for every enum tag: covers "number of variants" and "one more" for
-/// every enum with at most 17 variants (the app's Event has 17 deserializable variants).
-pub const TAG_MAX: u32 = 18;
+/// every enum with at most 19 variants (the app's Event has 19 deserializable variants).
+pub const TAG_MAX: u32 = 20;
 
-pub const BIN_ALPHABET: &str = "for a valid encoding e (n bytes): every proper prefix e[..k], k=0..n-1 (k=0 is the empty string); e with each single bit flipped (8n); every 8-byte length field (value v) replaced by {0, v-1, v+1, 2^28, 2^32, 2^40, 2^56, 2^63, 2^64-1} (2^28: fits in memory but is far above the 16 MiB bound; 2^32..2^56: neither overflows capacity nor fits in memory; 2^63 and up: capacity overflow); every 4-byte enum tag replaced by every value of 0..=18 other than its own and by 2^32-1 (covers #variants, #variants+1 and every other in-range tag = well-formed answer of the wrong kind); every 1-byte Option tag replaced by {2, 255}; e followed by 1, 8, 64 bytes of 0x00 and of 0xff";
+pub const BIN_ALPHABET: &str = "for a valid encoding e (n bytes): every proper prefix e[..k], k=0..n-1 (k=0 is the empty string); e with each single bit flipped (8n); every 8-byte length field (value v) replaced by {0, v-1, v+1, 2^28, 2^32, 2^40, 2^56, 2^63, 2^64-1} (2^28: fits in memory but is far above the 16 MiB bound; 2^32..2^56: neither overflows capacity nor fits in memory; 2^63 and up: capacity overflow); every 4-byte enum tag replaced by every value of 0..=20 other than its own and by 2^32-1 (covers #variants, #variants+1 and every other in-range tag = well-formed answer of the wrong kind); every 1-byte Option tag replaced by {2, 255}; e followed by 1, 8, 64 bytes of 0x00 and of 0xff";
 
 pub fn bin_faults(e: &[u8], m: &Marks) -> Vec<Vec<u8>> {
     let mut set: BTreeSet<Vec<u8>> = BTreeSet::new();
